@@ -68,29 +68,58 @@ Definition undecodable (d : dgram) : Prop :=
   | DRecs rs => Forall (fun r => r = RBadHeader) rs
   end.
 
-Definition recv_rec (W : nat) (full : bool) (s : rstate) (r : drec) : rstate * list out :=
+(* ---------- the read loop's treatment of a received alert (conn.go classifyReadLoopError) ---------- *)
+
+(* the content a record is dispatched with, when it gets that far *)
+Definition disp_content (w : wire) : content :=
+  if w_epoch w =? 0 then w_clear w
+  else if w_ctype w =? ct_ccs then ccs_view (w_clear w)
+  else match w_auth w with Some c => c | None => CBad end.
+
+(* a non-fatal alert: warning level, description other than close_notify *)
+Definition is_warning (c : content) : bool :=
+  match c with
+  | CAlert level desc => negb ((level =? alert_fatal) || (desc =? desc_close_notify))
+  | _ => false
+  end.
+
+(* [est]: the handshake has completed.  classifyReadLoopError: a fatal alert or close_notify closes; a
+   NON-fatal alert is handed to Read once established and IGNORED while the handshake is running
+   (readLoopContinue) - nobody reads c.decrypted (capacity 1) before establishment.  Rec/Recv.v has no
+   establishment flag: its OErr for a warning alert is the established behaviour. *)
+Definition recv_conn (W : nat) (lease full est : bool) (s : rstate) (w : wire) : rstate * list out :=
+  let '(s', os) := recv_fb W lease full s w in
+  if negb est && is_warning (disp_content w) then (s', filter (fun o => negb (is_err o)) os) else (s', os).
+
+(* [neg]: the endpoint is still in the dual-stack version negotiation loop (negotiateVersionServer /
+   negotiateVersionClient -> readAndBufferNoFSM): classifyReadLoopError is not consulted there, EVERY error of
+   processIncomingPacket - a warning alert included - ends the handshake *)
+Definition recv_conn_neg (W : nat) (lease full neg est : bool) (s : rstate) (w : wire) : rstate * list out :=
+  if neg then recv_fb W lease full s w else recv_conn W lease full est s w.
+
+Definition recv_rec (W : nat) (full est : bool) (s : rstate) (r : drec) : rstate * list out :=
   match r with
   | RBadHeader => (s, [])
-  | RWire w => recv_fb W true full s w
+  | RWire w => recv_conn W true full est s w
   end.
 
 (* readAndProcessDatagram: records in order, the first error ends the datagram *)
-Fixpoint recv_recs (W : nat) (full : bool) (s : rstate) (rs : list drec) : rstate * list out :=
+Fixpoint recv_recs (W : nat) (full est : bool) (s : rstate) (rs : list drec) : rstate * list out :=
   match rs with
   | [] => (s, [])
   | r :: rs' =>
-      let '(s1, o1) := recv_rec W full s r in
+      let '(s1, o1) := recv_rec W full est s r in
       if existsb is_err o1 then (s1, o1) else
-      let '(s2, o2) := recv_recs W full s1 rs' in (s2, o1 ++ o2)
+      let '(s2, o2) := recv_recs W full est s1 rs' in (s2, o1 ++ o2)
   end.
 
 (* conn.go readAndProcessDatagram (as repaired in 5a7ed2c): ANY error of unpackDatagram is logged and the
    datagram discarded - before and after establishment and in the dual-stack version negotiation loop *)
-Definition recv_dgram (W : nat) (full : bool) (s : rstate) (d : dgram) : rstate * list out :=
+Definition recv_dgram (W : nat) (full est : bool) (s : rstate) (d : dgram) : rstate * list out :=
   if r_closed s then (s, []) else
   match d with
   | DEmpty | DLenErr | DOtherErr => (s, [])
-  | DRecs rs => recv_recs W full s rs
+  | DRecs rs => recv_recs W full est s rs
   end.
 
 (* ---------- forged input, and histories with forged input removed ---------- *)
